@@ -248,6 +248,107 @@ def _replay_pairs(f):
     return True
 
 
+# hand-built NLRI of the route types the QA corpus does not hold (bytes written from RFC 7432 7.1 / 7.4, draft-mpmz-bess-mup-safi
+# 3.1.2 / 3.1.4, RFC 6514 4.6): pairs which differ in one field of the wire form
+_RD = bytes.fromhex('0000fde800000001')
+_ESI_A, _ESI_B, _ETAG = bytes(10), bytes.fromhex('00112233445566778899'), bytes(4)
+
+
+def _evpn(code, payload):
+    return bytes([code, len(payload)]) + payload
+
+
+def _mup(code, payload):
+    import struct
+
+    return struct.pack('!BHB', 1, code, len(payload)) + payload
+
+
+HAND_PAIRS = [
+    ('evpn-ead-esi', (25, 70), _evpn(1, _RD + _ESI_A + _ETAG + b'\x00\x00\x01'), (25, 70), _evpn(1, _RD + _ESI_B + _ETAG + b'\x00\x00\x01')),
+    ('evpn-ead-label', (25, 70), _evpn(1, _RD + _ESI_A + _ETAG + b'\x00\x00\x01'), (25, 70), _evpn(1, _RD + _ESI_A + _ETAG + b'\x00\x01\x01')),
+    ('evpn-es-esi', (25, 70), _evpn(4, _RD + _ESI_A + b'\x20' + bytes([1, 2, 3, 4])), (25, 70), _evpn(4, _RD + _ESI_B + b'\x20' + bytes([1, 2, 3, 4]))),
+    ('evpn-mac-esi', (25, 70), _evpn(2, _RD + _ESI_A + _ETAG + b'\x30' + bytes.fromhex('001122334455') + b'\x00' + b'\x00\x00\x01'), (25, 70), _evpn(2, _RD + _ESI_B + _ETAG + b'\x30' + bytes.fromhex('001122334455') + b'\x00' + b'\x00\x00\x01')),
+    ('mup-dsd-afi', (1, 85), _mup(2, _RD + bytes([1, 2, 3, 4])), (2, 85), _mup(2, _RD + bytes([1, 2, 3, 4]))),
+    ('mup-t2st-endpoint-len', (1, 85), _mup(4, _RD + bytes([40, 1, 2, 3, 4]) + b'\x80'), (1, 85), _mup(4, _RD + bytes([33, 1, 2, 3, 4]) + b'\x80')),
+    ('mup-t2st-teid-zero', (1, 85), _mup(4, _RD + bytes([32, 1, 2, 3, 4])), (1, 85), _mup(4, _RD + bytes([40, 1, 2, 3, 4]) + b'\x00')),
+]
+
+
+def hand_pair_case(name, fa, ba, fb, bb):
+    from exabgp.bgp.message.update.nlri import NLRI
+    from exabgp.bgp.message.action import Action
+    from exabgp.protocol.family import AFI, SAFI
+
+    nb, neg = c13.session()
+    inp = {'source': 'hand-built:' + name, 'family': f'{fa} / {fb}', 'a': ba.hex(), 'b': bb.hex()}
+    try:
+        a, la = NLRI.unpack_nlri(AFI.from_int(fa[0]), SAFI.from_int(fa[1]), memoryview(ba), Action.ANNOUNCE, False, neg)
+        b, lb = NLRI.unpack_nlri(AFI.from_int(fb[0]), SAFI.from_int(fb[1]), memoryview(bb), Action.ANNOUNCE, False, neg)
+    except Exception as e:  # noqa
+        return {'what': f'a hand-built NLRI is refused by the decoder: {type(e).__name__}: {str(e)[:100]}', 'input': inp, 'harness': True}
+    inp['class'] = type(a).__name__
+    if a == b and (hash(a) != hash(b) or a.index() != b.index()):
+        return {'what': 'two routes compare equal and have different indexes' if a.index() != b.index() else 'two routes compare equal and hash differently', 'input': inp}
+    return None
+
+
+@bounded('C15', 'hand-built-pairs')
+def hand_built_pairs(tier, seed):
+    """PROPERTY: equal routes have equal indexes and hashes.  Route types the QA corpus does not hold, two NLRI which differ
+    in ONE field of the wire form (ESI, label, endpoint length, TEID presence, the AFI they arrived under)."""
+    fails = []
+    for case in HAND_PAIRS:
+        f = hand_pair_case(*case)
+        if f:
+            fails.append(f)
+    # an unknown TUNNEL_ENCAP sub-TLV: two decodes of the same bytes are equal, print alike, index alike
+    fails += [f for f in [decode_twice_case()] if f]
+    return {'evaluations': len(HAND_PAIRS) + 1, 'distinct_nontrivial': len(HAND_PAIRS) + 1, 'bound': f'{len(HAND_PAIRS)} pairs of hand-built EVPN type 1 / 2 / 4 and MUP DSD / T2ST NLRI differing in one field; one TUNNEL_ENCAP attribute with an unregistered sub-TLV decoded twice', 'rule': 'one case = one pair', 'samples': [{'pair': 'mup-t2st-endpoint-len'}], 'failures': fails}
+
+
+def decode_twice_case():
+    from exabgp.bgp.message.update.attribute import AttributeCollection
+
+    nb, neg = c13.session()
+    tun = bytes.fromhex('000f0004') + bytes([77, 2, 1, 2])
+    full = bytes.fromhex('400101004002004003040a000001') + bytes([0xC0, 23, len(tun)]) + tun
+    inp = {'source': 'hand-built:tunnel-unknown-subtlv', 'attributes': full.hex(), 'class': 'TunnelEncap'}
+    try:
+        AttributeCollection.cached = None
+        c1 = AttributeCollection.unpack(full, neg)
+        AttributeCollection.cached = None
+        c2 = AttributeCollection.unpack(full, neg)
+        s1, s2 = str(c1), str(c2)
+    except Exception as e:  # noqa
+        return {'what': f'decoding / rendering raised {type(e).__name__}: {str(e)[:100]}', 'input': inp}
+    if s1 != s2:
+        return {'what': 'the text of two decodes of the same bytes differs (it is not a function of the bytes)', 'input': inp, 'observed': [s1[-80:], s2[-80:]]}
+    if not (c1 == c2 and c1.index() == c2.index()):
+        return {'what': 'two decodes of the same attribute bytes are not equal / do not share an index', 'input': inp}
+    return None
+
+
+@replayer('C15', 'hand-built-pairs')
+def _replay_hand(f):
+    src = f['input']['source'].split(':', 1)[1]
+    if src == 'tunnel-unknown-subtlv':
+        return decode_twice_case() is None
+    for case in HAND_PAIRS:
+        if case[0] == src:
+            return hand_pair_case(*case) is None
+    return True
+
+
+@region('C15-key-only-equality')
+def key_only_region(failure):
+    """recorded, by its root cause: __eq__ / __hash__ of EVPN Ethernet A-D (type 1) and Ethernet Segment (type 4) routes
+    compare the route KEY only (RD and tag / RD and address; the code says "esi and label must not be part of the
+    comparaison"), and MUP Direct Segment Discovery ignores the AFI the NLRI arrived under, while index() is family + every
+    octet.  Only the kind 'equal with different indexes', only these three classes."""
+    return failure.get('what') == 'two routes compare equal and have different indexes' and failure.get('input', {}).get('class') in ('EthernetAD', 'EthernetSegment', 'DirectSegmentDiscoveryRoute')
+
+
 @region('C15-mvpn-eq-narrower-than-index')
 def mvpn_eq_region(failure):
     """recorded defect, by its root cause: __eq__ of the MVPN route types 5, 6 and 7 (SourceAD, SharedJoin, SourceJoin)
